@@ -1,6 +1,8 @@
 """Single source for MANIFEST.json (python tools_manifest.py regenerates it)."""
 SOURCE_COMMITS = []  # no hook commits; fix: commits are listed in known_findings.json
 ENGINES = [
+ {"name": "vworld", "path": "vp/vworld.py", "serves_properties": ["C01", "C05", "C06", "C07"], "kind_free_text": "E3: virtual-time asyncio loop (advancing clock, jitter tape on timers, FIFO fault-tape network, fake datagram transports) with the library's own GeckoSimulator driven in-process as the peer; recording queue/lock (vp/recording.py)"},
+ {"name": "stepped", "path": "vp/stepped.py", "serves_properties": ["C01", "C05"], "kind_free_text": "E4: the real GeckoUdpSocket._thread_func stepped on the harness thread against a scripted mock socket with virtual time and inert threads"},
  {"name": "refcodec", "path": "vp/refcodec.py", "serves_properties": ["C04"], "kind_free_text": "E2: reference codec of every in.touch2 message as explicit byte concatenations + index-based un-framer, independent of driver/protocol/*.py"},
  {"name": "packs", "path": "vp/packs.py", "serves_properties": ["C02", "C03", "C14", "C18"], "kind_free_text": "E1: enumeration of the 164 shipped table modules / 895 combinations and a reference item decoder/encoder built from the recorded constructor arguments of the generated tables (independent of accessor.py)"},
  {"name": "runner", "path": "vp/runner.py", "serves_properties": ["C02", "C16", "C18"], "kind_free_text": "Hypothesis-driven generation sharded over 16 processes, collect-by-signature then JSON ddmin shrinking, known-findings/fixed replay, evidence writer"},
@@ -36,24 +38,28 @@ CHECKS = [
   "text": "For each of the 26 message constructors generated in-range fields (binary payloads biased to newlines, quotes and tag text; latin-1 names incl. '|'; all shipped platform names x versions, exhaustively in thorough) are built by the library and must equal the reference codec byte for byte, survive framing/un-framing with (ip,port,src,dst) intact, be claimed by exactly the handler family of their verb among all standard handlers, decode on a fresh peer handler (and on one long-lived handler across message sequences) to the inputs, and a reply built from the received parms must carry swapped identifiers (index-based reference parser) and the sender's address.",
   "ref": "DESIGN.md section 3 C04",
   "note": "Identifiers never contain tag text (implicit precondition of every caller). SETWC/WCREQ unclaimed are known findings; the hello separator and greedy un-framing defects were repaired (known_findings.json)."},
+ {"id": "C01", "engine": "vworld+stepped", "level": "fault_enumeration",
+  "technique": "fault injection: generated loss/dup/delay/swap tapes (incl. persistent, attempt-aligned faults) on a deterministic virtual network + complete fault-free (start,length) sweeps; oracle = spa block vs client block",
+  "text": "A really connected GeckoAsyncSpa on the virtual-time loop (real packet and catch-all consumers) and a GeckoStructure on the stepped threaded engine fetch generated (start,length) ranges from the in-process GeckoSimulator through generated fault tapes over request and segment datagrams, several transfers per connection with the network drained in between; success must install exactly the spa's bytes, failure must leave the client block untouched, no byte may take a third value, the block stays 1024 bytes, the number of STATU datagrams is bounded by the retry budget, the call must terminate, and every fault-free (start,length) of the sweep (all lengths at start 0, all starts to the block end, a lattice incl. every multiple-of-39 boundary) must succeed.",
+  "ref": "DESIGN.md section 3 C01",
+  "note": "Delays <= 3 s and a drained network between transfers (as the quantifier states); the spa block is constant during one transfer; 'must succeed' only on the nominal schedule."},
+ {"id": "C05", "engine": "vworld+stepped", "level": "fault_enumeration",
+  "technique": "property-based testing: generated message/refresh histories against a reference block folded in delivery order; acknowledgement oracle on the wire log",
+  "text": "Generated histories of unsolicited STATP messages (0..6 records, clustered/repeated/overlapping positions, empty messages, the simulator's own 1-byte change) interleaved with log-range refreshes of a silently mutated simulator block run against a connected async client (refreshes not awaited, optional jitter) and the threaded GeckoSpa on the stepped engine; after quiescence the client block must equal the fold of all updates in the order their (last) datagram was delivered and exactly one STATQ with a sequence in 1..191 and the right identifiers must have left per STATP.",
+  "ref": "DESIGN.md section 3 C05",
+  "note": "FIFO network; a refresh installs whole 39-byte segments; STATQ/truncated STATP towards the client are outside the quantifier."},
+ {"id": "C06", "engine": "vworld", "level": "exploration",
+  "technique": "property-based testing over schedules and reply faults: generated concurrent callers x loss/delay tapes x jitter tapes on a virtual clock; recording lock + time-stamped wire log as history invariants",
+  "text": "1..8 generated concurrent callers (counting-factory requests with retry 1..10, key press, set value, watercare get/set, reminders) run next to the library's own ping and refresh loops on one connection under reply loss/delay and timer jitter; per call transmissions <= retry count, factory calls == transmissions, attempts carry fresh sequence numbers and are >= timeout apart, every request datagram lies in exactly one lock window of the task that sends that verb, lock windows never overlap and are granted in request order, a reply is returned only if a response datagram was delivered inside an attempt window, every call ends within retry x (timeout+pause) plus the stated polling tolerance, and with a stale ping or a disconnected spa the gated calls emit nothing and return at once.",
+  "ref": "DESIGN.md section 3 C06",
+  "note": "Schedules are the jitter-tape family (J<=50 ms); the spa does not echo sequence numbers, so 'a reply for it' is judged by response verb inside the attempt window."},
+ {"id": "C07", "engine": "vworld", "level": "exploration",
+  "technique": "property-based testing over arrival scripts and schedules: recording queue (put/pop/mark per task) checked against an independent verb->consumer table and a reference effect model",
+  "text": "Generated arrival scripts of valid, unknown, junk, late, mis-addressed (source, destination, both) and malformed-framing datagrams are injected into a connected client while generated requests are outstanding, the client event handler suspends for generated durations and timers are jittered; the recorded queue log must show exactly one pop per put, by the catch-all task or by a task whose verb family accepts the datagram, no consumer task may die, head residence stays within the stated bound, the packet consumer may re-queue exactly the contents of correctly addressed well-formed packets, and block, RF/watercare events and acknowledgements must equal what the consumed, correctly addressed datagrams imply.",
+  "ref": "DESIGN.md section 3 C07",
+  "note": "Jitter-tape schedule family; verb table written from the protocol description; bound 6 x (poll + J) (analytic worst case of the repaired catch-all consumer: 5 intervals + 3J)."},
 ]
 NOT_APPLICABLE = [
- {
-  "property_id": "C01",
-  "reason": "check not built yet in this session (work in progress; see DESIGN.md section 3)"
- },
- {
-  "property_id": "C05",
-  "reason": "check not built yet in this session (work in progress; see DESIGN.md section 3)"
- },
- {
-  "property_id": "C06",
-  "reason": "check not built yet in this session (work in progress; see DESIGN.md section 3)"
- },
- {
-  "property_id": "C07",
-  "reason": "check not built yet in this session (work in progress; see DESIGN.md section 3)"
- },
  {
   "property_id": "C08",
   "reason": "check not built yet in this session (work in progress; see DESIGN.md section 3)"
